@@ -60,7 +60,8 @@ def check(model, tier):
 
     from ..rules import validation as _validation
 
-    _validation.r20_2_inventory(ctx, rule="R14.16")  # every node is built behind the column / engine checks of its factory, on every successful exit
+    _validation.r20_2_inventory(ctx, rule="R14.16")
+    _commute.r14_17_partial_join_resolved(ctx, "R14.17")  # every node is built behind the column / engine checks of its factory, on every successful exit
     _commute.r04_4_set_formulas(ctx, rule="R14.10")  # columns_required of a (partial) join decides whether a moved operation stays valid upstream
     run.assume("every SQL-engine relation handed to the engine is a Select (R17.2, checked under C17)")
     run.assume("Transfer.simplify finds nothing to simplify on the own-engine no-op path (otherwise the call is not a no-op)")
